@@ -555,18 +555,23 @@ class ProcWorld:
 
     kind = "proc"
 
-    def __init__(self, root, prefix="/", principal="/user/", index_threshold=None, paranoid=False, autocreate=False, defaults=False, extra_env=None):
+    def __init__(self, root, prefix="/", principal="/user/", index_threshold=None, paranoid=False, autocreate=False, defaults=False, extra_env=None, audit=None):
         self.root = root
         self.prefix = prefix if prefix.endswith("/") else prefix + "/"
         self.principal = principal
         self.kw = dict(index_threshold=index_threshold, paranoid=paranoid, autocreate=autocreate, defaults=defaults)
         self.extra_env = extra_env or {}
+        self.audit = audit  # (event log path, [watched prefixes]) -> run under hooked_main.py
         self.proc = None
         self.start()
 
     def start(self):
         self.sock = _new_sockpath()
-        argv = [sys.executable, "-W", "ignore", "-m", "xandikos"] + serve_argv(self.root, self.sock, self.prefix, self.principal, **self.kw)
+        if self.audit:
+            hm = os.path.join(os.path.dirname(os.path.abspath(__file__)), "hooked_main.py")
+            argv = [sys.executable, "-W", "ignore", hm, self.audit[0], ":".join(self.audit[1]), "--"] + serve_argv(self.root, self.sock, self.prefix, self.principal, **self.kw)
+        else:
+            argv = [sys.executable, "-W", "ignore", "-m", "xandikos"] + serve_argv(self.root, self.sock, self.prefix, self.principal, **self.kw)
         e = dict(os.environ)
         e.update(self.extra_env)
         self.errlog = self.sock + ".err"
